@@ -58,7 +58,7 @@ TraceSpec == TraceInit /\ [][TraceNext]_tvars
 
 \* always TRUE; lists the records judged bad / known (line number of the record in the trace; for
 \* a bad one also the abstract observation that was expected)
-Report == /\ (verdict = "bad") => PrintT(<<"BAD", l - 1, obs>>)      \* obs = the abstract observation
+Report == /\ (verdict = "bad") => PrintT(<<"BAD", l - 1>>) /\ PrintT(<<"EXPECTED", l - 1, ToJson(obs)>>)
           /\ (verdict = "known") => PrintT(<<"KNOWN", l - 1>>)
 \* the verdict: no operation of any executed sequence printed anything but the abstract result
 Conforms == (l > N) => nbad = 0
